@@ -13,6 +13,7 @@ EXPLANATION = (
     "annotations such as executor references or _q_metadata are therefore invisible: C20.R1/R2); every operation and every name it "
     "reads is in a whitelist of deterministic, process-independent operations (R3); the whole dump reaches the digest through an "
     "injective, total text->bytes step (R4/R5)."
+    " (R6) list-typed fields of constructed nodes hold real lists; (R7) a captured constant only changes the hash if it reached the AST: the capture snapshot rules of C04 (closure and all module globals, none filtered out) are re-evaluated."
 )
 NOT_DECIDED = "injectivity of ast.dump on structure and collision resistance of the digest (trusted stdlib / cryptographic assumption)."
 
